@@ -1,6 +1,6 @@
 (* GenEqNum.v — number codecs of encode/buffer.go and decode/buffer.go: translated source = model *)
 From Coq Require Import ZArith Bool List Lia ZifyBool ZifyNat.
-From IVG Require Import SF NumCodec Color Calls Decoder GoSem Tables GoSrc NumBase NumProofs SFProofs NumSweepD Mul64 GenEqBase GenEqFloat QuantEq.
+From IVG Require Import SF NumCodec Color Calls Decoder GoSem Tables GoSrc NumBase NumProofs SFProofs NumSweepD Mul64 GenEqBase GenEqFloat QuantEq QuantTiny.
 Import ListNotations.
 Local Open Scope Z_scope.
 Ltac Zify.zify_post_hook ::= Z.div_mod_to_equations.
@@ -344,3 +344,58 @@ Proof.
   rewrite (quant_chain f s m e W D (conj Hmag Hup)).
   unfold quant_k. rewrite (ival32_fin _ _ _ _ D). reflexivity.
 Qed.
+
+(* non-zero coordinates below 2^-35: the float64 sum is inexact, but floors to +0, which is the model's value *)
+Theorem go_quantize_tiny f : wf_f32 f -> fle F32 cm128 f = true -> flt F32 f c128 = true ->
+  0 < Z.abs (ival32 f) < 2 ^ 114 ->
+  go_encode_Encoder_quantize false f = quantize false f.
+Proof.
+  intros W L1 L2 Hmag.
+  destruct (quant_range f W L1 L2) as [Ff Hr].
+  unfold is_finite in Ff. destruct (decode F32 f) as [| |s m e] eqn:D; try discriminate.
+  pose proof (decode32_fin _ _ _ _ W D) as [Hm He].
+  rewrite (ival32_fin _ _ _ _ D) in Hmag.
+  assert (P0 : 0 < 2 ^ (e + 149)) by (apply Z.pow_pos_nonneg; lia).
+  assert (Habs : Z.abs (sm s m * 2 ^ (e + 149)) = m * 2 ^ (e + 149)).
+  { destruct s; unfold sm; [rewrite Z.mul_opp_l, Z.abs_opp|]; apply Z.abs_eq; nia. }
+  rewrite Habs in Hmag.
+  assert (Hm0 : 0 < m) by (destruct (Z.eq_dec m 0) as [Zm|Zm]; [rewrite Zm, Z.mul_0_l in Hmag; lia|lia]).
+  unfold go_encode_Encoder_quantize, quantize. rewrite <- cm128_bits, <- c128_bits, <- c64_bits.
+  cbn [negb andb]. rewrite L1, L2. cbn [andb].
+  rewrite (quant_chain_tiny f s m e W D Hm0 (proj2 Hmag)).
+  assert (K : quant_k f = 0).
+  { unfold quant_k. rewrite (ival32_fin _ _ _ _ D). apply Z.div_small.
+    set (I := m * 2 ^ (e + 149)) in *.
+    assert (HI : sm s m * 2 ^ (e + 149) = sm s I) by (destruct s; unfold sm, I; lia). rewrite HI.
+    change (2 ^ 149) with (2 ^ 148 * 2). change (2 ^ 114) with 20769187434139310514121985316880384 in Hmag.
+    change (2 ^ 148) with 356811923176489970264571492362373784095686656.
+    destruct s; unfold sm; lia. }
+  rewrite K. reflexivity.
+Qed.
+
+(* a finite float32 whose value is zero is one of the two zeros *)
+Lemma zero_bits32 f s e : wf_f32 f -> decode F32 f = FFin s 0 e -> f = 0 \/ f = 2147483648.
+Proof.
+  unfold wf_f32, decode, expo_of, mant_of, sign_of, emax_field, emin, F32. cbn [prec ebits].
+  change (2 ^ (24 - 1)) with 8388608. change (2 ^ 8) with 256. change (2 ^ (8 - 1)) with 128.
+  intros H.
+  destruct (_ =? 256 - 1) eqn:E1; [destruct (_ =? 0); discriminate|].
+  destruct ((f / 8388608) mod 256 =? 0) eqn:E2; intros K; inversion K; subst; lia.
+Qed.
+
+(* Encoder.quantize as written in the source = the model's quantize, for every float32 it quantises *)
+Theorem go_quantize_all f : wf_f32 f -> fle F32 cm128 f = true -> flt F32 f c128 = true ->
+  go_encode_Encoder_quantize false f = quantize false f.
+Proof.
+  intros W L1 L2.
+  destruct (Z_lt_le_dec (Z.abs (ival32 f)) (2 ^ 114)) as [Hs|Hb]; [|apply go_quantize_eq; assumption].
+  destruct (Z.eq_dec (ival32 f) 0) as [Hz|Hnz]; [|apply go_quantize_tiny; try assumption; lia].
+  destruct (quant_range f W L1 L2) as [Ff _].
+  unfold is_finite in Ff. destruct (decode F32 f) as [| |s m e] eqn:D; try discriminate.
+  pose proof (decode32_fin _ _ _ _ W D) as [Hm He].
+  rewrite (ival32_fin _ _ _ _ D) in Hz.
+  assert (P0 : 0 < 2 ^ (e + 149)) by (apply Z.pow_pos_nonneg; lia).
+  assert (Hm0 : m = 0) by (destruct s; unfold sm in Hz; nia).
+  subst m. destruct (zero_bits32 f s e W D) as [->| ->]; vm_compute; reflexivity.
+Qed.
+
